@@ -792,8 +792,6 @@ def varstr(string):
     :return bytes: varstring
     """
     s = normalize_var(string)
-    if s == b'\0':
-        return s
     return int_to_varbyteint(len(s)) + s
 
 
